@@ -1,9 +1,36 @@
 (* C01 — the tie to the source: the version that selects the signed text is read from the payload exactly as
    identifier.Version (v2/decoder.go, translated on this run into Gen/SrcHeader.v) reads it.  Only statements. *)
-From JWT Require Import Base.GoSem Gen.SrcHeader Model.Decode Proofs.SrcHeader.
+From JWT Require Import Base.GoSem Gen.SrcHeader Gen.SrcDecode Model.Decode Proofs.SrcHeader Proofs.SrcDecode.
 Open Scope string_scope.
 
 Theorem C01_source_identifier_version : forall i : ident,
   V2.identifier_Version (id_nats_version i) (id_top_type i) = id_version i.
 Proof. exact src_id_version. Qed.
 Print Assumptions C01_source_identifier_version.
+
+(* jwt.Decode itself, with loadClaims and parseHeaders, as translated on this run (Gen/SrcDecode.v): for every choice of
+   base64 / JSON / loader / Ed25519 / key-role functions it accepts exactly the tokens the model's [decode] accepts, and
+   returns claims of the kind, and carrying the issuer, that the model reports - so everything C01 proves of [decode]
+   (the third segment verifies under the reported issuer over the text of the declared layout) is said of the code.
+   [src_decode] is the translated function with the translation's unknown functions instantiated by the model's
+   oracles (Proofs/SrcDecode.v: what json.Unmarshal, the kind loaders, verify, ExpectedPrefixes, Claims().Issuer and
+   nkeys answer). *)
+Theorem C01_source_decode : forall b64dec parse_header parse_ident unmarshal_ok issuer_of verify role_of (tok : string),
+  match decode b64dec parse_header parse_ident unmarshal_ok issuer_of verify role_of tok with
+  | Some a => exists d, src_decode b64dec parse_header parse_ident unmarshal_ok issuer_of verify role_of tok = (GClaims (a_kind a) d, None)
+                        /\ issuer_of d = a_iss a
+  | None => snd (src_decode b64dec parse_header parse_ident unmarshal_ok issuer_of verify role_of tok) <> None
+  end.
+Proof. exact src_decode_spec. Qed.
+Print Assumptions C01_source_decode.
+
+(* ClaimsData.verify: true exactly when the issuer text is a public key, that key has 32 bytes (the P10 repair), and it
+   verifies the signature over exactly the text handed in *)
+Theorem C01_source_verify : forall (V : Type) (vnil : V) (iss : string)
+  (decode_key : Z -> string -> string * option string) (from_public : string -> V * option string) (prefix : string -> Z)
+  (kp_verify : V -> string -> string -> option string) (payload sig : string),
+  SrcDecode.V2.ClaimsData_verify V vnil iss decode_key from_public prefix kp_verify payload sig = true <->
+  snd (from_public iss) = None /\ snd (decode_key (prefix iss) iss) = None /\
+  go_slen (fst (decode_key (prefix iss) iss)) = 32%Z /\ kp_verify (fst (from_public iss)) payload sig = None.
+Proof. exact src_verify_spec. Qed.
+Print Assumptions C01_source_verify.
